@@ -46,6 +46,14 @@ def affineAt {K V : Type} [Add V] [SMul K V] (a0 : V) : List K → List V → V
   | x :: xs, b :: bs => x • b + affineAt a0 xs bs
   | _, _ => a0
 
+/-- Domain axes of a refinement: per axis `(lo, hi, n, k)` — `n` cells on `[lo, hi]`. -/
+def refineDom {K : Type} [Add K] [Sub K] [Mul K] [Div K] [NatCast K] [OfNat K 1] [OfNat K 2]
+    (specs : List (K × K × Nat × Nat)) : List (Axis K) :=
+  specs.map (fun s => uniformAxis s.1 s.2.1 s.2.2.1 .nearest)
+/-- Range axes of a refinement: `k * n` cells on the same interval. -/
+def refineRan {K : Type} [Add K] [Sub K] [Mul K] [Div K] [NatCast K] [OfNat K 1] [OfNat K 2]
+    (specs : List (K × K × Nat × Nat)) : List (Axis K) :=
+  specs.map (fun s => uniformAxis s.1 s.2.1 (s.2.2.2 * s.2.2.1) .nearest)
 /-- All multi-indices of the grid in C order (first axis slowest). -/
 def allIdx {K : Type} (axes : List (Axis K)) : List (List Nat) :=
   cartesian (axes.map (fun a => List.range a.n))
@@ -801,6 +809,97 @@ example (v w : List Nat → ℚ) :=
       simp only [List.mem_cons, List.mem_nil_iff, or_false] at ha
       subst ha
       exact uniformAxis_good 0 1 2 .linear (by norm_num) (by norm_num)) rfl (-3) v w
+
+/-- Nearest-neighbour resampling from `n` to `k·n` cells of the same interval, one axis, on the
+index rule as executed: fine node `j` takes the value of coarse node `j / k` — the coarse cell that
+contains it (piecewise-constant prolongation; the docstring example `[0, 1, 0] ↦ [0, 0, 1, 1, 0, 0]`
+for every `n ≥ 2`, `k ≥ 1`, interval).  Uses the coded node formulas of both grids and the
+closest-node/ties-right characterisation. -/
+theorem C15.nearest_refine_is_prolongation (lo hi : K) (n k j : Nat) (h : lo < hi) (hn : 2 ≤ n)
+    (hk : 1 ≤ k) (hj : j < k * n) :
+    nearestIndex (uniformNode lo hi n) n (uniformNode lo hi (k * n) j) = j / k := by
+  have hkn : 1 ≤ k * n := Nat.mul_pos hk (by omega)
+  set x := uniformNode lo hi (k * n) j with hx
+  obtain ⟨hm, hcl⟩ := C15.nearest_is_closest (uniformNode lo hi n) n x
+    (uniformAxis_good lo hi n .nearest h hn).incr hn
+  set m := nearestIndex (uniformNode lo hi n) n x with hmdef
+  have hi_lt : j / k < n := Nat.div_lt_of_lt_mul hj
+  have hle := (hcl (j / k) hi_lt).1
+  -- the fine half cell
+  have hkK : (0 : K) < (k : K) := by exact_mod_cast hk
+  have hnK : (0 : K) < (n : K) := by exact_mod_cast (by omega : 0 < n)
+  set H := (hi - lo) / (2 * ((k * n : Nat) : K)) with hH
+  have hHpos : 0 < H := by
+    apply div_pos (by linarith)
+    push_cast; positivity
+  have hcoarse : (hi - lo) / (2 * (n : K)) = (k : K) * H := by
+    rw [hH]; push_cast; field_simp
+  have hxe : x = lo + (2 * (j : K) + 1) * H := uniformNode_eq lo hi (k * n) j hkn hj
+  have hX : ∀ q, q < n → uniformNode lo hi n q = lo + (2 * (q : K) + 1) * ((k : K) * H) := by
+    intro q hq
+    rw [uniformNode_eq lo hi n q (by omega) hq, hcoarse]
+  rw [hX m hm, hX (j / k) hi_lt, hxe] at hle
+  -- integer facts about i = j / k
+  have h1 : (j / k) * k ≤ j := Nat.div_mul_le_self j k
+  have h2 : j < (j / k + 1) * k := by
+    have := Nat.lt_succ_iff.mpr (Nat.le_refl (j / k))
+    exact (Nat.div_lt_iff_lt_mul (by omega)).mp this
+  have h1K : ((j / k : Nat) : K) * (k : K) ≤ (j : K) := by exact_mod_cast h1
+  have h2K : (j : K) + 1 ≤ (((j / k : Nat) : K) + 1) * (k : K) := by exact_mod_cast h2
+  set i := j / k with hidef
+  have hbound : |lo + (2 * (j : K) + 1) * H - (lo + (2 * (i : K) + 1) * ((k : K) * H))| ≤ ((k : K) - 1) * H := by
+    rw [abs_le]
+    constructor <;> nlinarith
+  by_contra hne
+  rcases Nat.lt_or_gt_of_ne hne with hlt | hgt
+  · have hc : (m : K) + 1 ≤ (i : K) := by exact_mod_cast hlt
+    have : ((k : K) + 1) * H ≤ lo + (2 * (j : K) + 1) * H - (lo + (2 * (m : K) + 1) * ((k : K) * H)) := by
+      nlinarith [mul_le_mul_of_nonneg_right hc (le_of_lt (mul_pos hkK hHpos))]
+    have h3 := le_trans (le_trans this (le_abs_self _)) (le_trans hle hbound)
+    nlinarith
+  · have hc : (i : K) + 1 ≤ (m : K) := by exact_mod_cast hgt
+    have : ((k : K) + 1) * H ≤ -(lo + (2 * (j : K) + 1) * H - (lo + (2 * (m : K) + 1) * ((k : K) * H))) := by
+      nlinarith [mul_le_mul_of_nonneg_right hc (le_of_lt (mul_pos hkK hHpos))]
+    have h3 := le_trans (le_trans this (neg_le_abs _)) (le_trans hle hbound)
+    nlinarith
+
+/-- `Resampling(uniform_discr(lo, hi, n), uniform_discr(lo, hi, k·n), 'nearest')` in every dimension
+(per axis its own interval, `n_j ≥ 2`, `k_j ≥ 1`), as executed: output entry `idx` is input entry
+`(idx_j / k_j)_j`. -/
+theorem C15.resampling_nearest_refine (specs : List (K × K × Nat × Nat))
+    (hs : ∀ s ∈ specs, s.1 < s.2.1 ∧ 2 ≤ s.2.2.1 ∧ 1 ≤ s.2.2.2) (v : List Nat → V) :
+    resampling (refineDom specs) (refineRan specs) v =
+      (allIdx (refineRan specs)).map (fun idx => v (List.zipWith (fun i s => i / s.2.2.2) idx specs)) := by
+  have hg : ∀ a ∈ refineDom specs, a.Good ∧ a.scheme = .nearest := by
+    intro a ha
+    obtain ⟨s, hsm, rfl⟩ := List.mem_map.mp ha
+    obtain ⟨h1, h2, _⟩ := hs s hsm
+    exact ⟨uniformAxis_good _ _ _ _ h1 h2, rfl⟩
+  rw [C15.resampling_samples_interpolant _ _ (fun a ha => (hg a ha).1) (by simp [refineDom, refineRan]),
+    gridPoints_eq, List.map_map, allIdx]
+  apply List.map_congr_left
+  intro idx hidx
+  have hv := mem_allIdx_lt (refineRan specs) idx hidx
+  simp only [Function.comp]
+  rw [C15.nearest_paths_agree _ hg]
+  unfold nearestInterp
+  congr 1
+  clear hidx hg
+  induction specs generalizing idx with
+  | nil => simp [refineDom, refineRan]
+  | cons s ss ih =>
+    cases hv with
+    | @cons _ i _ is hi hrest =>
+      obtain ⟨h1, h2, h3⟩ := hs s (by simp)
+      have ih' := ih (fun t ht => hs t (by simp [ht])) is hrest
+      simp only [refineDom, refineRan, List.map_cons, List.zipWith_cons_cons] at ih' ⊢
+      rw [ih']
+      congr 1
+      exact C15.nearest_refine_is_prolongation s.1 s.2.1 s.2.2.1 s.2.2.2 i h1 h2 h3 hi
+
+/-- Non-vacuity: the docstring example of `Resampling` (3 → 6 cells on [0, 1]). -/
+example : resampling (refineDom [((0 : ℚ), (1 : ℚ), 3, 2)]) (refineRan [((0 : ℚ), (1 : ℚ), 3, 2)])
+    (fun idx => if idx = [1] then (1 : ℚ) else 0) = [0, 0, 1, 1, 0, 0] := by decide +kernel
 
 /-- `linear_deform(template, displacement, interp)` as executed (`linearDeform`: displaced points
 `space.points() + displacement`, transposition, dispatch of `per_axis_interpolator`, `(d, N)`
